@@ -66,11 +66,11 @@ type Link struct {
 }
 
 type ScriptedFault struct {
-	Dir       int
+	Dir        int
 	AfterWrite int    // fire right after this many writes on Dir ...
-	AtByte    int64  // ... or (if AfterWrite==0) as soon as this many bytes were delivered on Dir
-	Kind      string // "reset", "eof0", "eof1" (FIN on direction), "close0", "close1"
-	done      bool
+	AtByte     int64  // ... or (if AfterWrite==0) as soon as this many bytes were delivered on Dir
+	Kind       string // "reset", "eof0", "eof1" (FIN on direction), "close0", "close1"
+	done       bool
 }
 
 type seg struct {
@@ -83,6 +83,7 @@ type Pipe struct {
 	link      *Link
 	d         int
 	Key       string
+	optKey    string
 	inflight  []seg
 	delivered []byte
 	pkts      [][]byte // packet mode: delivered datagrams
@@ -122,6 +123,7 @@ func (n *Net) newLink(name string, packet bool, la, ra net.Addr) *Link {
 			arrow = "<"
 		}
 		l.Dir[d] = &Pipe{link: l, d: d, Key: fmt.Sprintf("l%d%s", l.ID, arrow), Partial: n.DefaultPartial}
+		l.Dir[d].optKey = "N:" + l.Dir[d].Key
 		l.Dir[d].rq.Desc = "simnet read " + l.Dir[d].Key
 	}
 	l.Ends[0] = &Conn{link: l, side: 0, in: l.Dir[1], out: l.Dir[0], local: la, remote: ra}
@@ -167,7 +169,7 @@ func (n *Net) options() []simsync.Option {
 	var opts []simsync.Option
 	for _, p := range ps {
 		p := p
-		o := simsync.Option{Key: "N:" + p.Key, Class: 'N', Anchor: fmt.Sprintf("N:%s/%d", p.Key, p.segSeq), Weight: p.Weight}
+		o := simsync.Option{Key: p.optKey, Class: 'N', AnchorN: p.segSeq, Weight: p.Weight}
 		if p.Partial && !p.link.Packet && len(p.inflight[0].b) > 1 {
 			o.NParam = len(p.inflight[0].b)
 		}
